@@ -42,7 +42,7 @@ def three_distinct(rng, d, pool=(1, 2, 3, 4, 5)):
 def cases(tier, seed):
     rng = random.Random('C04|%d' % seed)
     cs = []
-    n = 1600 if tier == 'quick' else 40000
+    n = 8000 if tier == 'quick' else 150000
     for i in range(n):
         d = rng.choice([1, 2, 2, 3, 3, 4])
         M, K, N = three_distinct(rng, d, (1, 2, 3, 4, 5) if d <= 3 else (1, 2, 3, 4))
